@@ -2,11 +2,18 @@
 // of the lib0 primitive layer (units/lib0_common/*).  Serves C09 (decode(encode(x)) == x) and C10 (decoders are total).
 // UNBOUNDED: sequences of arbitrary length, arbitrary input bytes.
 //
+// Files: dec.rs (decoders: spec step functions + the real read_X proved total and equal to them; DecoderV2 read_usize/read_buf/ds),
+//        enc.rs (encoders: abstract state, invariant, the real write_X/flush/to_vec proved equal to the spec steps; EncoderV2 ds),
+//        rt_id.rs / rt_uo.rs / rt_rl.rs (the inductive round-trip theorems), examples.rs (concrete columns).
+//
 // Slicing / rewrites (all logged in the evidence):
-//   * ReadExt / WriteExt split, `Some(&b)` desugaring, match-guard desugaring: see units/lib0_common/base.rs
+//   * ReadExt / WriteExt split, `Some(&b)` desugaring, pub fields of Signed, AsRef -> VxBytes: see units/lib0/unit.rs
+//   * MS  `to_vec(mut self)`: Verus rejects a `mut self` receiver; desugared to `self` + `let mut vx_self = self;` [3 per-extract SUBs x2]
 //   * `DecoderV2` / `EncoderV2` are sliced to the fields the verified functions touch (cursor + ds_curr_val / buf + ds_curr_val);
 //     read_ds_clock / read_ds_len / write_ds_clock / write_ds_len are pulled from the `impl Decoder for DecoderV2` /
 //     `impl Encoder for EncoderV2` blocks into inherent impls of the sliced structs
+//   * R9  `debug_assert!(len != 0)` in write_ds_len becomes a proof obligation (discharged by the stated precondition)
+// Encoder DOMAIN restrictions (stated as `requires` of the encoders / as the *_dom predicates of the theorems): see enc.rs, rt_*.rs
 #![allow(unused_imports, unused_variables, unused_mut, dead_code, unused_parens, unused_braces, unused_assignments)]
 use vstd::prelude::*;
 use vstd::slice::*;
